@@ -358,15 +358,21 @@ class Macro(Composite, StaticNode, ScrapesIO, ABC):
         return self._outputs
 
     def _configure_graph_execution(self, ui_nodes):
-        run_signals = self.disconnect_run()
-
-        has_signals = len(run_signals) > 0
+        # Only look: disconnecting and re-connecting the hand-made run signals would
+        # re-order the connection lists (newest first), and with them the order in
+        # which one signal reaches its receivers
+        n_run_signals = sum(
+            len(channel.connections)
+            for node in self.children.values()
+            for channel in node.signals.input
+            if channel.label in ("run", "accumulate_and_run")
+        )
+        has_signals = n_run_signals > 0
         has_starters = len(self.starting_nodes) > 0
 
         if has_signals and has_starters:
             # Assume the user knows what they're doing
-            self._reconnect_run(run_signals)
-            # Then put the UI upstream of the original starting nodes
+            # and put the UI upstream of the original starting nodes
             for n in self.starting_nodes:
                 n << ui_nodes
             self.starting_nodes = ui_nodes if len(ui_nodes) > 0 else self.starting_nodes
@@ -375,7 +381,7 @@ class Macro(Composite, StaticNode, ScrapesIO, ABC):
             self.set_run_signals_to_dag_execution()
         else:
             raise ValueError(
-                f"The macro {self.full_label} has {len(run_signals)} run signals "
+                f"The macro {self.full_label} has {n_run_signals} run signals "
                 f"internally and {len(self.starting_nodes)} starting nodes. Either "
                 f"the entire execution graph must be specified manually, or both run "
                 f"signals and starting nodes must be left entirely unspecified for "
